@@ -109,4 +109,45 @@ def step (sp : Spec) (e new : List Nat) (s : Db × Writer) : Ev → Db × Writer
 def run (sp : Spec) (e new : List Nat) (s : Db × Writer) (evs : List Ev) : Db × Writer :=
   evs.foldl (step sp e new) s
 
+-- ---------------------------------------------------------------- the create-if-absent writer
+
+/-- An If-None-Match:* writer in a bucket that is not versioning-Enabled: `reads` reads of the
+latest row, each tested for absence (T1: every read generation is existence-checked); no lock is
+taken because there is no row; then the read of the key's null version and the LAST guard, which
+either tests that freshly read row (`guardFresh`, the code as it is) or a boolean computed from an
+earlier read (`guardFresh = false`); then the write: replace the null version that was read, or
+insert — the unique index on the latest row refuses a second insert. -/
+structure InmWriter where
+  pc       : Nat := 0
+  nullSeen : Option Cell := none
+  st       : Status := .running
+  deriving Repr, DecidableEq
+
+def stepInm (reads : Nat) (guardFresh : Bool) (new : List Nat) (d : Db) (w : InmWriter) : Db × InmWriter :=
+  match w.st with
+  | .running =>
+    if w.pc < reads then
+      if d.row.isSome then (d, { w with st := .failed }) else (d, { w with pc := w.pc + 1 })
+    else if w.pc == reads then
+      -- FindNullObjectVersion + the last guard
+      if guardFresh && d.row.isSome then (d, { w with st := .failed })
+      else (d, { w with pc := w.pc + 1, nullSeen := d.row })
+    else
+      match w.nullSeen with
+      | some _ =>
+        -- the null version that was read is removed / overwritten by id, whatever it is now
+        ({ row := some ⟨d.nextId, 1, new⟩, nextId := d.nextId + 1 }, { w with st := .committed d.row })
+      | none =>
+        match d.row with
+        | none => ({ row := some ⟨d.nextId, 1, new⟩, nextId := d.nextId + 1 }, { w with st := .committed none })
+        | some _ => (d, { w with st := .failed })      -- unique-index violation → PreconditionFailed
+  | _ => (d, w)
+
+def stepI (reads : Nat) (guardFresh : Bool) (new : List Nat) (s : Db × InmWriter) : Ev → Db × InmWriter
+  | .a => stepInm reads guardFresh new s.1 s.2
+  | .env c => (applyChange s.1 c, s.2)
+
+def runInm (reads : Nat) (guardFresh : Bool) (new : List Nat) (s : Db × InmWriter) (evs : List Ev) : Db × InmWriter :=
+  evs.foldl (stepI reads guardFresh new) s
+
 end Pithos.CondProto
